@@ -337,6 +337,28 @@ func c03(c *core.Ctx) {
 			c.Check("SetStableBlock:blockCommit(hash of the same element)", "value-flow", listParam != nil && len(a) == 2 && core.Slice(a[1])[listParam] &&
 				core.SliceHasCall(core.Slice(a[1]), blk("Hash")), g.Pos(), "the block committed to disk is the element that becomes LastConfirm")
 		}
+		// (a') every other branch is pruned at every step: after the store, a pruning call receives the root that was LastConfirm
+		// immediately before this step (a load of LastConfirm that precedes the store in the SAME iteration) and the element stored
+		pr := 0
+		for _, ci := range core.AllCalls(adv) {
+			if !core.Dominates(advStore, ci) || ci.Common().StaticCallee() != nil && core.RelPkg(ci.Common().StaticCallee()) != "store" {
+				continue
+			}
+			a := ci.Common().Args
+			if len(a) != 2 || !core.Derived(advStore.Val)[a[1]] {
+				continue
+			}
+			pr++
+			ok := false
+			if ld, isLd := a[0].(*ssa.UnOp); isLd && core.FieldOf(ld.X) == lastConfirm && core.Dominates(ld, advStore) {
+				_, hl := core.LoopOf(ld.Block())
+				_, hs := core.LoopOf(advStore.Block())
+				ok = hl == hs
+			}
+			c.Check("SetStableBlock:prune(previous stable root of this step, new root)", "value-flow", ok, ci.Pos(),
+				"the branches that do not descend from the new stable block are pruned from the root that was stable immediately before this step (read in the same iteration of the commit loop)")
+		}
+		c.Floor("SetStableBlock/prune-calls-after-advance", pr, 1)
 		// (b) that list is CollectToParent(UnConfirmBlocks[hash], LastConfirm)
 		mk := closureSite(ssb, adv)
 		var call ssa.CallInstruction
